@@ -44,6 +44,10 @@ var curated = []struct {
 	{1, "Z0,d0;Z0,d0"},
 	{1, "Z0,d0;N0o,d0;S0,d0"},
 	{1, "N0f;Z0,d0;N0o,d0"},
+	{4, "N3f;N3o,d3"},
+	{4, "N3f;N3o,d3;S3,d3"},
+	{4, "N3f,N3o,d3;N3f;G"},
+	{1, "N0o,N0o,S0,d0,d0,d0;N0o,d0"},
 	{1, "N0o,d0;D0"},
 	{1, "N0o;D0,D0"},
 }
@@ -89,6 +93,9 @@ func randProg(rng *core.Rand, nk, maxOps int, rogue bool) string {
 		k := rng.Intn(nk)
 		if rng.Chance(2, 3) {
 			k = 0 // contention
+			if nk == 4 {
+				k = 3
+			}
 		}
 		switch {
 		case r < 34:
@@ -139,7 +146,7 @@ var malformed = []string{
 	"stress 1 4 100 1", "stress 1 1 100 1 a", "stress 1 9 100 1 a", "stress 1 4 0 1 a", "stress 1 4 5001 1 a",
 	"stress 1 4 100 0 a", "stress 1 4 100 5 b", "stress 1 4 100 1 c", "stress x 4 100 1 a", "stress 1234567890 4 100 1 a",
 	"stress 1 4 1e2 1 a", "stress -1 4 100 1 a",
-	"writers 1 N0o 0", "writers 1 O0o,d0 0", "sched 1 O0o 0", "sched 1 c 0", "writers 1 O1o 0", "writers 1 O0x 0", "writers 1 O0o,G 0", "writers 1 c,O0o 0", "writers 1 O0o,c,c 0", "hosts 1 N0o 0", "hosts 1 P0,c,P0 0", "hosts 1 P1 0", "sched 1 P0 0", "writers 1 P0 0", "hosts 1 O0o 0", "sched 1 Z1 0",
+	"writers 1 N0o 0", "writers 1 O0o,d0 0", "sched 1 O0o 0", "sched 1 c 0", "writers 1 O1o 0", "writers 1 O0x 0", "writers 1 O0o,G 0", "writers 1 c,O0o 0", "writers 1 O0o,c,c 0", "hosts 1 N0o 0", "hosts 1 P0,c,P0 0", "hosts 1 P1 0", "sched 1 P0 0", "writers 1 P0 0", "hosts 1 O0o 0", "sched 1 Z1 0", "writers 4 O3f 0", "writers 4 O0o 0",
 }
 
 // client lines: configs that open log writers (some OpenWriter calls fail) and close their logs
@@ -285,6 +292,9 @@ func (prop) Generate(rng *core.Rand, tier string, emit func(string)) {
 		nk := 1 + rng.Intn(2)
 		if rng.Chance(1, 10) {
 			nk = 1 + rng.Intn(4)
+		}
+		if rng.Chance(1, 12) {
+			nk = 4 // key 3: the failing constructor returns a value together with its error
 		}
 		nt := 2 + rng.Intn(3)
 		if rng.Chance(1, 12) {
